@@ -606,6 +606,11 @@ func (w *World) backSlice(v ssa.Value, opt flowOpt) map[ssa.Value]bool {
 			visit(x.X)
 		case *ssa.MakeClosure:
 			visit(x.Fn)
+		case *ssa.Alloc:
+			// pointer to a local: what is stored in it
+			for _, st := range storesTo(x) {
+				visit(st.Val)
+			}
 		case *ssa.BinOp:
 			if opt.BinOps {
 				visit(x.X)
